@@ -217,7 +217,7 @@ func procProgramSource(rng *gen.Rng, i int) string {
 func C08(r *drv.Run) {
 	r.BuildWorker()
 	srcs, counts := c08Sources(r)
-	r.Rule = "sources: valid programs (hand corpus covering every production, repository examples, generated programs incl. process code) and, for each, every byte prefix and suffix, every one-token deletion/duplication/adjacent swap, every token prefix; random token soups; random bytes biased to lexer-significant characters; regex literals with arbitrary bodies, terminated and not; hostile tails pushed across a multiple of the lexer's 4096-byte read buffer by a long comment, blank run or string; sources of 2^16 .. 2^19 (thorough: 2^20) characters in eight shapes at four alignments and of exactly 2^k characters; exhaustively every pair of bytes (all 65 536) after `\\x` in both quote styles, after a backslash in a string and after a backslash in a regex literal. Each Compile runs in a killable worker under a lexer-read budget (hook H2), a 30 CPU-second and 1.5 GiB guard; outcome classified: program XOR error, printable non-empty error, no panic, no nil hole anywhere in the AST (reflective walk) or bytecode. Every distinct source text counts once (the valid base programs are the control group that must be accepted)."
+	r.Rule = "sources: valid programs (hand corpus covering every production, repository examples, generated programs incl. process code) and, for each, every byte prefix and suffix, every one-token deletion/duplication/adjacent swap, every token prefix; random token soups; random bytes biased to lexer-significant characters; regex literals with arbitrary bodies, terminated and not; hostile tails pushed across a multiple of the lexer's 4096-byte read buffer by a long comment, blank run or string; sources of 2^16 .. 2^19 (thorough: 2^20) characters in eight shapes at four alignments and of exactly 2^k characters; exhaustively every pair of bytes (all 65 536) after `\\x` in both quote styles, after a backslash in a string and after a backslash in a regex literal. A sample of all of these is also delivered through CompileFile - as a regular file, through a symbolic link, through a named pipe, plus /dev/null, a directory and a missing path - and must meet the same outcome as Compile on the same bytes (for the last three: program XOR printable error). Each Compile runs in a killable worker under a lexer-read budget (hook H2), a 30 CPU-second and 1.5 GiB guard; outcome classified: program XOR error, printable non-empty error, no panic, no nil hole anywhere in the AST (reflective walk) or bytecode. Every distinct source text counts once (the valid base programs are the control group that must be accepted)."
 	r.Assumptions = []string{
 		"bounded time/memory is decided as: lexer reads <= 64*(len+8)+4096 (hook count), <= 30 CPU-seconds and <= 1.5 GiB per Compile call",
 		"a hole is a nil pointer or nil interface reachable from the returned AST, or nil bytecode",
@@ -285,7 +285,11 @@ func C08(r *drv.Run) {
 			}
 		}}
 	})
+	c08Delivery(r, srcs)
 	if r.NViolations() == 0 {
+		if r.Counter("delivered_through_fifo_and_agreed") == 0 || r.Counter("delivered_through_symlink_and_agreed") == 0 {
+			r.Inconclusive("coverage floor: no source delivered through a named pipe / a symbolic link")
+		}
 		if r.Counter("accepted") == 0 || r.Counter("rejected_with_error") == 0 {
 			r.Inconclusive("the workload did not produce both accepted and rejected sources")
 		}
@@ -298,4 +302,107 @@ func oneLineN(s string, n int) string {
 		s = s[:n] + "..."
 	}
 	return s
+}
+
+// c08Delivery: the same bytes handed over through the file system. CompileFile must behave like Compile on them
+// however they arrive; a path that cannot deliver bytes must end in a printable error (or the empty program), never
+// in a panic, a hang or an error that cannot be printed.
+func c08Delivery(r *drv.Run, srcs [][]byte) {
+	var pick [][]byte
+	for i, s := range gen.Corpus {
+		if i%2 == 0 {
+			pick = append(pick, []byte(s))
+		}
+	}
+	rng := gen.Derive(r.Seed, "C08delivery", 0)
+	n := 60
+	if !quick(r) {
+		n = 600
+	}
+	for k := 0; k < n && len(srcs) > 0; k++ {
+		s := srcs[rng.Intn(len(srcs))]
+		if len(s) < 20000 {
+			pick = append(pick, s)
+		}
+	}
+	kinds := []string{"file", "symlink", "fifo", "devnull", "dir", "missing"}
+	type job struct {
+		src  []byte
+		kind string
+	}
+	var jobs []job
+	for i, s := range pick {
+		for ki, k := range kinds {
+			if ki >= 3 && i%10 != 0 {
+				continue
+			}
+			jobs = append(jobs, job{s, k})
+		}
+	}
+	r.Exec(len(jobs), drv.ExecOpts{Batch: 60}, func(i int) *drv.Item {
+		jb := jobs[i]
+		c := wire.Case{Op: "compilefile", Src: jb.src, Mode: jb.kind}
+		return &drv.Item{Case: c, Check: func(res *wire.Result) {
+			r.Eval(1)
+			s := string(jb.src)
+			if crashOrGuard(r, res, &c, s, false) {
+				return
+			}
+			if len(res.Compiles) != 2 {
+				r.Inconclusive("compilefile: short result")
+				return
+			}
+			f, m := &res.Compiles[0], &res.Compiles[1]
+			bad := func(sig string, d map[string]any) {
+				if d == nil {
+					d = map[string]any{}
+				}
+				d["delivery"] = jb.kind
+				r.Violate(&drv.Violation{Sig: "CompileFile:" + sig, Src: s, Case: &c, Detail: d})
+			}
+			switch {
+			case f.Panic != nil:
+				r.Violate(&drv.Violation{Sig: "CompileFile:panic:" + f.Panic.Frame, Panic: f.Panic.Msg, Frame: f.Panic.Frame, Src: s, Case: &c, Detail: map[string]any{"delivery": jb.kind}})
+				return
+			case f.Budget != "":
+				bad("lexer-read-budget", map[string]any{"budget": f.Budget})
+				return
+			case f.BothNil:
+				bad("returned-nil-nil", nil)
+				return
+			case f.BothSet:
+				bad("returned-program-and-error", nil)
+				return
+			case f.ErrPanic != nil:
+				r.Violate(&drv.Violation{Sig: "CompileFile:error-message-panics:" + f.ErrPanic.Frame, Panic: f.ErrPanic.Msg, Frame: f.ErrPanic.Frame, Src: s, Case: &c, Detail: map[string]any{"delivery": jb.kind}})
+				return
+			case !f.OK && strings.TrimSpace(f.Err) == "":
+				bad("empty-error-message", nil)
+				return
+			case f.OK && len(f.Holes) > 0:
+				bad("ast-hole", nil)
+				return
+			}
+			switch jb.kind {
+			case "file", "symlink", "fifo", "devnull":
+				if m.Panic != nil || m.Budget != "" {
+					return // Compile itself is in trouble on these bytes: the main family reports that
+				}
+				if f.OK != m.OK || (!f.OK && f.Err != m.Err) {
+					bad("differs-from-Compile-on-the-same-bytes", map[string]any{"CompileFile_accepted": f.OK, "Compile_accepted": m.OK, "CompileFile_error": oneLineN(f.Err, 160), "Compile_error": oneLineN(m.Err, 160)})
+					return
+				}
+				r.Count("delivered_through_"+jb.kind+"_and_agreed", 1)
+			case "missing":
+				if f.OK {
+					bad("missing-file-accepted", nil)
+					return
+				}
+				r.Count("missing_path_rejected_with_message", 1)
+			case "dir":
+				r.Count("directory_path_total", 1)
+			}
+			r.Nontrivial("delivery|" + jb.kind + "|" + s)
+		}}
+	})
 }
